@@ -71,7 +71,7 @@ ASSUMPTIONS = ["the reference in vf/lib_C10_oracle.py (sort, fsum, linear-interp
                "percentiles are passed as Python numbers, np.int64 or np.float64 (a float32 percentile makes numpy interpolate with float32 weights)",
                "a value within 1e-7 bin widths of an interior histogram edge may be counted in either neighbouring bin; totals must be exact",
                "two-attribute histograms with a value on an interior edge of either axis are compared by total only (tallied)",
-               "finite=False on data whose viewed values contain NaN/inf, log histograms with a non-positive range end, zero-width ranges, ranges narrower than 1e-3 of their ends' magnitude and non-finite weights are outside the statement: tallied, not compared",
+               "finite=False: infinite values are ordinary values (sum / mean / min / max compared; lanes mixing +inf and -inf for sum / mean, and medians / percentiles over infinities, are tallied and not compared); NaN counts as missing whenever a selection or positive=True is in play, while finite=False without either (plain reducers, NaN propagates) on data with NaN is outside the statement; log histograms with a non-positive range end, zero-width ranges, ranges narrower than 1e-3 of their ends' magnitude and non-finite weights are outside the statement: tallied, not compared",
                "views are the supported domain (None, Ellipsis, bare slice on 1-d, tuples of non-negative ints and positive-step slices); index arrays, boolean masks, negative indices/steps and negative axes are not generated",
                "world attributes use identity or diagonal affine coordinates only (coupled coordinates are C15's subject); their reference values are read from Data.get_data on the full array",
                "datasets have no zero-length axis (zero-size views are generated instead); datetime attributes and random_subset are not driven"]
@@ -84,7 +84,8 @@ ANCHORS = ["glue.core.data:Data.compute_statistic", "glue.core.data:Data.compute
            "glue.viewers.histogram.state:HistogramLayerState.update_histogram"]
 
 PERCENTILES = [0, 10, 25, 50, 99.5, 100]
-STAT_VIEW_KINDS = ["none", "none", "none", "ellipsis", "bare_slice", "empty_tuple", "list_of_slices", "slice_tuple_full",
+STAT_VIEW_KINDS = ["none", "none", "none", "ellipsis", "bare_slice", "empty_tuple", "list_of_slices", "negative_bounds",
+                   "negative_bounds", "slice_tuple_full",
                    "slice_tuple_full",
                    "slice_tuple_short", "int_slice_mix", "int_slice_mix", "all_int", "empty_slice"]
 
@@ -140,7 +141,9 @@ def add_variant_components(rng, ds):
             else rng.uniform(-1, 1) for _ in range(n)]
     mg = (np.array(base) * scale).reshape(shape)
     ds.mag_scale = scale
-    for name, arr, kind in (("f4", f4, "float32"), ("u1", u1, "uint8"), ("i1", i1, "int8"), ("be", be, "float_big_endian"),
+    vi = np.array([rng.choice([np.inf, np.inf, -np.inf, np.nan, 1.0, 2.5, -1.0, 0.0]) if rng.random() < 0.7
+                   else round(rng.uniform(-3, 3), 2) for _ in range(n)]).reshape(shape)
+    for name, arr, kind in (("vi", vi, "float_inf_rich"), ("f4", f4, "float32"), ("u1", u1, "uint8"), ("i1", i1, "int8"), ("be", be, "float_big_endian"),
                             ("bi", bi, "int_big_endian"), ("mg", mg, "float_magnitude")):
         d.add_component(arr.copy(), name)
         ds.raw[name] = np.array(arr, dtype=float)
@@ -213,7 +216,7 @@ def cid_of(ds, name):
 
 
 def pick_attr(rng, ds, allow=("v", "v", "v", "i", "w", "der", "c", "pix", "pix", "world", "f4", "u1", "i1", "be", "bi",
-                                "mg", "mg")):
+                                "mg", "mg", "vi", "vi")):
     while True:
         a = rng.choice(allow)
         if a == "c" and ds.nd != 1:
@@ -233,6 +236,19 @@ def stat_view(rng, shape, kind):
     sl = lambda n: rand_slice(rng, n, allow_empty=rng.random() < 0.12)
     if kind == "bare_slice":
         return sl(shape[0]) if nd == 1 else (sl(shape[0]),)
+    if kind == "negative_bounds":
+        # positive steps, start / stop counted from the end; integers mixed in; now and then fewer entries than axes
+        def nb(n):
+            k = rng.randint(1, n + 1)
+            return rng.choice([slice(-k, None), slice(-k, None), slice(None, -1), slice(-k, -1), slice(-k, n), slice(1, -1),
+                               slice(-n - 2, None), slice(-k, None, 1)])
+        v = [nb(n) if rng.random() < 0.8 else (rng.randrange(n) if rng.random() < 0.5 else slice(None)) for n in shape]
+        if not any(isinstance(x, slice) and x.start is not None and x.start < 0 for x in v):
+            i = rng.randrange(nd)
+            v[i] = slice(-rng.randint(1, shape[i]), None)
+        if nd > 1 and rng.random() < 0.2:
+            v = v[:rng.randint(1, nd - 1)]
+        return tuple(v)
     if kind == "empty_tuple":
         return ()
     if kind == "list_of_slices":
@@ -357,10 +373,12 @@ def axis_choice(rng, vnd):
 
 def view_features(view, shape):
     if view is None or view is Ellipsis:
-        return {"view_has_int": False, "view_all_int": False, "view_has_step": False}
+        return {"view_has_int": False, "view_all_int": False, "view_has_step": False, "view_has_negative_bound": False}
     items = view if isinstance(view, tuple) else (view,)
     nint = sum(1 for x in items if isinstance(x, (int, np.integer)))
     return {"view_has_int": nint > 0, "view_all_int": nint == len(shape),
+            "view_has_negative_bound": any(isinstance(x, slice) and ((x.start is not None and x.start < 0) or
+                                                                     (x.stop is not None and x.stop < 0)) for x in items),
             "view_has_step": any(isinstance(x, slice) and x.step not in (None, 1) for x in items)}
 
 
@@ -387,8 +405,8 @@ def random_stat_query(rng, ds):
     q["attr"] = pick_attr(rng, ds)
     q["stat"] = rng.choice(STATS)
     q["pct"] = rng.choice(PERCENTILES) if q["stat"] == "percentile" else None
-    q["finite"] = rng.random() < 0.85
-    q["positive"] = rng.random() < 0.25
+    q["finite"] = rng.random() < (0.4 if q["attr"] == "vi" else 0.85)
+    q["positive"] = rng.random() < (0.45 if q["attr"] == "vi" else 0.25)
     q["sel_kind"] = rng.choice(SEL_KINDS)
     aim = rng.random() < 0.25 and ds.nd >= 2
     if aim:
@@ -425,6 +443,18 @@ def run_stat_query(ctx, rng, ds, q, api="compute_statistic", indexed=None, sel=N
     """Builds the selection (or takes a prepared (state, reference mask)), calls the real code, compares.
     `indexed` = (IndexedData, indices) for the derived-data API.  `shortcut_slices`: for a slice-based state, the
     slices in the axes of this dataset (used to tell the shortcut's known shape deviation from wrong values)."""
+    if sel is None and q["view_kind"] == "negative_bounds" and indexed is None and rng.random() < 0.6:
+        # a mask selection whose bounding box reaches the last element of the view along every axis
+        m = np.array([rng.random() < 0.3 for _ in range(ds.size)]).reshape(ds.shape)
+        last = []
+        for n, item in zip(ds.shape, tuple(q["view"]) + (slice(None),) * (ds.nd - len(q["view"]))):
+            idx = np.arange(n)[item]
+            last.append(int(idx) if np.ndim(idx) == 0 else (int(idx[-1]) if idx.size else None))
+        if None not in last:
+            m[tuple(last)] = True
+            q = dict(q, sel_kind="mask")
+            sel = (MaskSubsetState(m.copy(), ds.data.pixel_component_ids), m)
+            ctx.count("stat_negative_bounds_view_with_selection_reaching_its_end")
     if sel is None:
         sel = checked_selection(ctx, rng, ds, q["sel_kind"], q.get("kept_axis"))
     if sel is None:
@@ -463,8 +493,29 @@ def run_stat_query(ctx, rng, ds, q, api="compute_statistic", indexed=None, sel=N
         feats["view_has_int"] = True      # the derived dataset turns its indices into integers of the view
     # ---- domain
     if not q["finite"] and nonfinite_in_view:
-        ctx.count("excluded_finite_false_with_nonfinite_values")
-        return
+        # finite=False: NaN is a missing value wherever glue reduces with the NaN-aware functions (a selection mask or
+        # positive=True is in play); without either - and in the SliceSubsetState shortcut - the plain reducers run and
+        # a NaN propagates, which the statement does not define: excluded.  Infinite values are ordinary values.
+        plain_reducers = (not q["positive"]) and (q["sel_kind"] == "none" or
+                                                  (q["sel_kind"] == "slice_state" and view is None and indexed is None))
+        if plain_reducers and bool(np.isnan(vals[mask]).any()):
+            ctx.count("excluded_finite_false_plain_reducers_with_nan")
+            return
+        keep &= ~np.isnan(vals)
+        pinf, ninf = keep & (vals == np.inf), keep & (vals == -np.inf)
+        if pinf.any() or ninf.any():
+            if q["stat"] in ("median", "percentile"):
+                ctx.count("excluded_finite_false_median_or_percentile_over_infinities")
+                return
+            axes_ = None if q["axis"] is None else tuple(q["axis"]) if isinstance(q["axis"], tuple) else (q["axis"],)
+            lane = (lambda a: a.any()) if axes_ is None else (lambda a: a.any(axis=axes_) if axes_ else a)
+            if q["stat"] in ("sum", "mean") and bool(np.any(lane(pinf) & lane(ninf))):
+                ctx.count("excluded_finite_false_inf_minus_inf")
+                return
+            ctx.count("stat_finite_false_with_infinities")
+            fin_lane = lane(keep & np.isfinite(vals))
+            if bool(np.any((lane(pinf) | lane(ninf)) & ~fin_lane)):
+                ctx.count("stat_finite_false_lane_with_only_infinite_values")
     cid = cid_of(ds, q["attr"])
     target = ds.data if indexed is None else indexed[0]
     if feats["attr_kind"] == "world":
@@ -565,6 +616,7 @@ def run_stat_query(ctx, rng, ds, q, api="compute_statistic", indexed=None, sel=N
     # float32 attributes are reduced in float32 when no axis is given: agreement to float32 rounding, not float64's
     rtol = 6e-6 if feats["attr_kind"] == "float32" else 1e-9
     kept = vals[keep]
+    kept = kept[np.isfinite(kept)]
     vscale = float(np.max(np.abs(kept))) if kept.size else 0.0
     if g.shape != exp.shape:
         sig = structural(feats)
@@ -741,6 +793,7 @@ def run_hist_query(ctx, rng, ds, q, api="compute_histogram", layer_call=None, se
         return
     state, fullmask = sel
     feats = hist_feats(ds, q, api)
+    feats["one_element_after_selection"] = int(fullmask.sum()) == 1
     if layer_call is None:
         q["numpy_scalars"] = rng.random() < 0.2
         q["by_label"] = rng.random() < 0.01 and not q["attr"].startswith(("pix", "world"))
@@ -1674,7 +1727,9 @@ def run_case(ctx, case):
 
 def floors(counters, tier):
     out = []
-    need = {"history_stat_calls": 150, "history_hist_calls": 80, "history_mask_rechecks": 300, "history_repeated_calls": 40,
+    need = {"stat_view_negative_bounds": 300, "stat_negative_bounds_view_with_selection_reaching_its_end": 150,
+            "stat_finite_false_with_infinities": 80, "stat_finite_false_lane_with_only_infinite_values": 30,
+            "history_stat_calls": 150, "history_hist_calls": 80, "history_mask_rechecks": 300, "history_repeated_calls": 40,
             "history_fault_call_raised": 40, "viewer_history_histogram_reads": 30, "viewer_history_nudged_range": 6,
             "viewer_history_profile_reads": 25, "big_stat_queries": 15, "big_chunked_with_possibly_empty_chunks": 4,
             "dask_stat_queries": 15, "dask_hist_queries": 5, "stat_numpy_scalar_arguments": 800,
